@@ -674,7 +674,10 @@ def prof_cfg(g, n):
         # plain atoms, compound predicates that *contain* an atom without implying it, and names that are
         # substrings of one another: own and enclosing predicates must be conjoined whatever their text
         atoms = ["ca", "cb", "cc", "cd", 'feature="x"', 'feature="y"', "any(ca, cb)", "not(cc)", "ca1", 'feature="xy"',
-                 "any(cd, not(ca))"]
+                 "any(cd, not(ca))",
+                 # whitespace inside a string literal belongs to the predicate (no atom is a re-spaced spelling of another: the DSL
+                 # keeps a cfg as printed tokens, a manifest as written, so their `same text` tests differ there)
+                 'board = "rev a"', 'feature = "x  y"']
 
         def cfg():
             return g.pick(atoms) if g.chance(0.45) else None
@@ -1045,7 +1048,13 @@ def cases_for(prop, tier, seed):
     if prop == "C13":
         return CORPUS.get(prop, []) + prof_addrtype(g, 600 * k) + prof_pow2(g, 120 * k) + prof_mixed(g, 200 * k, depth=3, neg=True, field_kw={"conv_p": 0.05}, block_ref_p=0.1)
     if prop == "C04":
-        return CORPUS.get(prop, []) + prof_mixed(g, 340 * k, depth=3, neg=True, field_kw={"conv_p": 0.05}, block_ref_p=0.15, repeat_p=0.5) + prof_pow2(g, 60 * k)
+        pairs = []
+        for i in range(24 * k):
+            g.reset_names()
+            ad = allowed_pair_adef(g)
+            # make both sides readable registers more often: read_all_registers must visit each of them, address coinciding or not
+            pairs.append(case(ad, pick_syntax(g, (4, 4, 1, 1)), "mixed"))
+        return CORPUS.get(prop, []) + prof_mixed(g, 340 * k, depth=3, neg=True, field_kw={"conv_p": 0.05}, block_ref_p=0.15, repeat_p=0.5) + prof_pow2(g, 60 * k) + pairs
     return _cases_for_base2(prop, tier, seed)
 
 
@@ -1453,6 +1462,11 @@ def cases_for(prop, tier, seed):
             {"kind": "register", "name": "R", "address": "1", "size_bits": 8, "fields": [
                 {"name": "v", "base": "int", "start": 0, "end": 8, "conversion": {"enum": {"name": "E", "variants": [
                     {"name": "A", "value": "200"}, {"name": "B", "value": "default"}]}, "try": False}}]}]}, "dsl", "nocfg")
+        l01 = [case({"config": {"register_address_type": "u8", "default_byte_order": "LE"}, "objects": [
+            {"kind": "register", "name": "R", "address": "1", "size_bits": w, "fields": [
+                {"name": "v", "base": "uint", "start": 0, "end": w, "conversion": {"enum": {"name": "E", "variants": [
+                    {"name": "A", "value": "0"}, {"name": "Top", "value": str(2 ** w - 1)}, {"name": "Rest", "value": fb}]}, "try": False}}]}]}, syn, "nocfg")
+               for w, fb, syn in ((8, "default", "dsl"), (8, "catch_all", "json"), (16, "default", "yaml"), (3, "default", "dsl"))]
         f19 = case({"config": {"register_address_type": "u8", "default_byte_order": "LE"}, "objects": [
             {"kind": "register", "name": "Type", "address": "1", "size_bits": 8,
              "fields": [{"name": "type", "base": "uint", "start": 0, "end": 4}, {"name": "match", "base": "bool", "start": 5}]}]}, "json", "nocfg")
@@ -1486,7 +1500,7 @@ def cases_for(prop, tier, seed):
                 cfgx = {"register_address_type": ty, "command_address_type": ty, "buffer_address_type": ty, "default_byte_order": "LE"}
                 lits.append(case({"config": cfgx, "objects": [o, {"kind": "register", "name": "Low", "address": "1", "size_bits": 8, "fields": []}]},
                                  pick_syntax(g, (3, 3, 2, 2)), "nocfg"))
-        return CORPUS.get(prop, []) + [f14, f18, f19, f23] + f21 + edge + lits + [case(nocfg_adef(g), pick_syntax(g, (3, 3, 2, 2)), "nocfg") for _ in range(90 * k)]
+        return CORPUS.get(prop, []) + [f14, f18, f19, f23] + l01 + f21 + edge + lits + [case(nocfg_adef(g), pick_syntax(g, (3, 3, 2, 2)), "nocfg") for _ in range(90 * k)]
     return _cases_for_base5(prop, tier, seed)
 
 
